@@ -174,6 +174,13 @@ namespace xv
     XV_C2(c_eq, a == b)
     XV_C2(c_ne, a != b)
     XV_C1(c_neg, -a)
+    // the overloads that take a REAL batch and treat it as a complex batch with a zero imaginary part
+    XV_C1(c_real_ra, xs::real(a.real()))
+    XV_C1(c_imag_ra, xs::imag(a.real()))
+    XV_C1(c_conj_ra, xs::conj(a.real()))
+    XV_C1(c_proj_ra, xs::proj(a.real()))
+    XV_C1(c_norm_ra, xs::norm(a.real()))
+    XV_C1(c_arg_ra, xs::arg(a.real()))
     XV_C1(c_real, xs::real(a))
     XV_C1(c_imag, xs::imag(a))
     XV_C1(c_conj, xs::conj(a))
@@ -361,6 +368,12 @@ namespace xv
         creg<T, c_mul_assign_real, 1>("c.mul.assign.real");
         creg<T, c_div_real, 1>("c.div.real");
         creg<T, c_sub_real_l, 1>("c.sub.real.l");
+        creg<T, c_real_ra, 2>("c.real.realarg");
+        creg<T, c_imag_ra, 2>("c.imag.realarg");
+        creg<T, c_conj_ra, 0>("c.conj.realarg");
+        creg<T, c_proj_ra, 0>("c.proj.realarg");
+        creg<T, c_norm_ra, 2>("c.norm.realarg");
+        creg<T, c_arg_ra, 2>("c.arg.realarg");
         creg<T, c_get, 0>("c.get");
         creg<T, c_bcast, 0>("c.broadcast");
         creg<T, c_scalar_mul, 0>("c.mul.scalar");
